@@ -49,6 +49,9 @@ pub enum Step {
     /// the node rolls back to its block with this number (and stays there until the next Forward)
     RollBackToNumber(u64),
     Import(u64, Via),
+    /// import(target) whose `nth` write of a batch of blocks fails (injected store failure),
+    /// followed by a retry of the same import in the same process
+    ImportWithStoreFault(u64, i64),
     /// import(target) during which, after `reads` answers of the chain-sync server, the node
     /// switches to a fork that drops its last `depth` blocks and has `new_blocks` new ones
     ImportWithReorg(u64, usize, usize, usize),
@@ -90,6 +93,11 @@ pub struct History<'a> {
     first_import_after_restart: bool,
     perturbed: bool,
     last_target: Option<u64>,
+    /// injected store failure armed for the next import (writes let through before the failure)
+    arm_store_fault: Option<i64>,
+    /// an injected store failure was reported and no import has consulted the node on the same
+    /// connection since
+    after_failed_write: bool,
     ref_counter: u64,
     root_cache: HashMap<(String, u64), (String, String)>,
     dead: bool,
@@ -150,6 +158,8 @@ impl<'a> History<'a> {
             first_import_after_restart: false,
             perturbed: false,
             last_target: None,
+            arm_store_fault: None,
+            after_failed_write: false,
             ref_counter: 0,
             root_cache: HashMap::new(),
             dead: false,
@@ -390,6 +400,7 @@ impl<'a> History<'a> {
             return;
         }
         self.first_import_after_restart = true;
+        self.after_failed_write = false;
         self.check_unchanged("a restart").await;
     }
 
@@ -400,6 +411,7 @@ impl<'a> History<'a> {
         self.mon.count("event:connection_lost");
         self.events.push(json!("connection lost"));
         self.perturbed = true;
+        self.after_failed_write = false;
     }
 
     async fn ev_prune(&mut self, keep: u64) {
@@ -500,6 +512,11 @@ impl<'a> History<'a> {
             self.rng.fill_bytes(&mut seed);
             *sut.script.lock().unwrap() = Some(MidImportReorg { reads_left: reads, depth, new_blocks: newb, rng: ChaCha20Rng::from_seed(seed) });
         }
+        let armed = self.arm_store_fault.take();
+        if let Some(n) = armed {
+            sut.store_fault_fired.store(false, Ordering::SeqCst);
+            sut.store_fault.store(n, Ordering::SeqCst);
+        }
         let res: Result<Option<String>, String> = match via {
             Via::Importer => sut.importer.import(BlockNumber(target)).await.map(|_| None).map_err(|e| format!("{e:#}")),
             Via::LegacyBuilder | Via::V2Builder => {
@@ -510,6 +527,14 @@ impl<'a> History<'a> {
                 }
             }
         };
+        sut.store_fault.store(-1, Ordering::SeqCst);
+        let store_fault_fired = armed.is_some() && sut.store_fault_fired.swap(false, Ordering::SeqCst);
+        if store_fault_fired {
+            self.perturbed = true;
+            self.mon.count("injected store failure fired");
+        } else if armed.is_some() {
+            self.mon.count("injected store failure armed but the import ended before it");
+        }
         // a scripted re-organisation that did not fire is cancelled
         let reorg_fired = reorg.is_some() && sut.script.lock().unwrap().take().is_none();
         if reorg_fired {
@@ -538,7 +563,7 @@ impl<'a> History<'a> {
                     _ => {}
                 }
             }
-            root_cause = oracle::root_cause(&l, &before);
+            root_cause = oracle::root_cause(&l, &before, self.after_failed_write);
             (oracle::cause(&l, &before, self.first_import_after_restart), oracle::relayed_json(&l), consulted, timeout, buffer_rb)
         };
         if buffer_rb {
@@ -562,6 +587,7 @@ impl<'a> History<'a> {
             self.mon.count(&format!("import context: {part}"));
         }
         self.events.push(json!({"import": {"target": target, "via": via_s, "mid_import_reorg(after_reads,depth,new_blocks)": reorg, "reorg_fired": reorg_fired,
+            "injected_store_failure(after_writes)": armed, "injected_store_failure_fired": store_fault_fired,
             "result": match &res { Ok(r) => json!({"ok": r}), Err(e) => json!({"error": e}) },
             "chain_sync": relayed, "stored_after": summary(&after), "prune_floor": self.floor.load(Ordering::SeqCst)}}));
         if self.verbose {
@@ -570,6 +596,7 @@ impl<'a> History<'a> {
         let was_first_after_restart = self.first_import_after_restart;
         if consulted {
             self.first_import_after_restart = false;
+            self.after_failed_write = false;
         }
         let floor = self.floor.load(Ordering::SeqCst);
 
@@ -584,6 +611,14 @@ impl<'a> History<'a> {
                     if std::env::var("VERIF_C13_DEBUG").is_ok() {
                         eprintln!("MODEL TIMEOUT shard {} history {} cfg {} events {}", self.shard, self.index, self.cfg.describe(), serde_json::to_string(&self.events).unwrap_or_default());
                     }
+                    self.expected.take().map(|x| Self::drop_ref(x.sut));
+                    return;
+                }
+                if store_fault_fired && e.contains(crate::sut::INJECTED_STORE_FAULT) {
+                    // the injected failure was reported to the caller: the state is whatever was stored
+                    // before the failing write; the retry that follows is the judged step
+                    self.mon.count("import_error:injected store failure reported");
+                    self.after_failed_write = true;
                     self.expected.take().map(|x| Self::drop_ref(x.sut));
                     return;
                 }
@@ -978,6 +1013,11 @@ impl<'a> History<'a> {
                     self.apply_rollback(keep, "scripted");
                 }
                 Step::Import(t, via) => self.ev_import(*t, *via, None).await,
+                Step::ImportWithStoreFault(t, nth) => {
+                    self.arm_store_fault = Some(*nth);
+                    self.ev_import(*t, Via::Importer, None).await;
+                    self.ev_import(*t, Via::Importer, None).await;
+                }
                 Step::ImportWithReorg(t, reads, depth, newb) => self.ev_import(*t, Via::Importer, Some((*reads, *depth, *newb))).await,
                 Step::Restart => self.ev_restart().await,
                 Step::Prune(k) => self.ev_prune(*k).await,
@@ -1042,8 +1082,31 @@ impl<'a> History<'a> {
                         self.ev_import(t, Via::Importer, Some((reads, depth, newb))).await;
                     }
                 }
-                80..=87 => self.ev_restart().await,
-                88..=91 => self.ev_reconnect().await,
+                80..=83 => {
+                    // one write of a batch of blocks fails in the middle of an import; the import is
+                    // retried in the same process (what the state machines do on their next cycle)
+                    let (tip, h) = (self.node.lock().unwrap().tip_number(), self.stored.highest_number());
+                    if tip.is_some() && h >= tip {
+                        let n = 5 + rnd::usize_below(&mut self.rng, 60);
+                        self.ev_forward(n);
+                    }
+                    let tip = self.node.lock().unwrap().tip_number();
+                    if let Some(tip) = tip {
+                        let back = rnd::below(&mut self.rng, 3);
+                        let t = self.existing_number(tip.saturating_sub(back));
+                        let via = *rnd::pick(&mut self.rng, &[Via::Importer, Via::Importer, Via::LegacyBuilder, Via::V2Builder]);
+                        // batches are `max_roll_forwards_per_poll` blocks: aim inside the import
+                        let to_read = t.saturating_sub(h.unwrap_or(0)) as usize;
+                        let batches = to_read / self.cfg.max_roll_forwards_per_poll.max(1) + 1;
+                        self.arm_store_fault = Some(rnd::usize_below(&mut self.rng, batches + 1) as i64);
+                        self.ev_import(t, via, None).await;
+                        if !self.dead {
+                            self.ev_import(t, via, None).await;
+                        }
+                    }
+                }
+                84..=89 => self.ev_restart().await,
+                90..=91 => self.ev_reconnect().await,
                 _ => {
                     let keep = rnd::range(&mut self.rng, 0, 60);
                     self.ev_prune(keep).await;
